@@ -8,6 +8,10 @@ CONSTANTS
   BoundLen = 2
   Limits = {1, 2, 3, 333}
   Stops = {0, 1, 2}
-  Walk = TRUE
+  Mode = "walk"
+  L = 333
+  Sizes = {"3", "L-1", "L", "L+1", "2L+1"}
+  HistStores <- HistStoresQuick
+  HistKinds = {}
   MaxSteps = 40
 CHECK_DEADLOCK FALSE
